@@ -123,7 +123,19 @@ def _same_sharing_structure(x: Any, y: Any) -> bool:
   x_to_y = {}
   y_to_x = {}
 
+  def same_types(a, b) -> bool:
+    # Values that Python calls equal may still have different types (`1 ==
+    # True`, a named tuple and a plain tuple of the same elements, a
+    # defaultdict and a dict): they build different objects.
+    if type(a) is not type(b):
+      return False
+    if isinstance(a, tuple):
+      return len(a) == len(b) and all(map(same_types, a, b))
+    return True
+
   def visit(a, b) -> bool:
+    if not same_types(a, b):
+      return False
     if daglish.is_internable(a) or daglish.is_internable(b):
       return True
     if id(a) in x_to_y or id(b) in y_to_x:
@@ -138,6 +150,10 @@ def _same_sharing_structure(x: Any, y: Any) -> bool:
     a_children = dict(zip(a_traverser.path_elements(a), a_traverser.flatten(a)[0]))
     b_children = dict(zip(b_traverser.path_elements(b), b_traverser.flatten(b)[0]))
     if a_children.keys() != b_children.keys():
+      return False
+    if isinstance(a, dict) and not all(
+        same_types(k, next(k2 for k2 in b if k2 == k)) for k in a
+    ):
       return False
     return all(visit(a_children[k], b_children[k]) for k in a_children)
 
